@@ -440,7 +440,11 @@ func runC13(c *run.Ctx) {
 							for n, v := range ct.host {
 								ptrMap[n] = v
 							}
-							o := facadeInvoke(engines[p.ek], p.cl, ptrHost)
+							var arg interface{} = ptrHost
+							if (op+rep)%2 == 1 {
+								arg = ptrMap // the map object itself, refilled in place
+							}
+							o := facadeInvoke(engines[p.ek], p.cl, arg)
 							lateNow = p.late
 							want := base(p.ek, p.ei, p.cc, ct)
 							log = append(log, fmt.Sprintf("invoke[%s] %s with the same *map refilled as %s -> %s", engines[p.ek].name, srcs[p.ei], ct.name, o))
@@ -608,7 +612,7 @@ func c13Stdout(c *run.Ctx, out string, log []string) {
 func init() {
 	run.Register(&run.Spec{
 		ID: "C13", Run: runC13, Level: "exploration",
-		Rule: "histories of 50-400 operations {Compile, Invoke, package-level Eval / Debug over the reused host maps, late registration of a function and an operator (expressions using them must be refused before and work after), one *types.Env rewritten in place to another signature and compiled against, one host map passed by pointer to the same Callable several times in a row and refilled in between} on two reused engines (vm and closure compiler, harness strict / lazy functions registered) over a pool of 15 expressions (fixed: map rendering, print, lazy host calls, shared sub-values; generated) and 7 environment contents (4 of equal types and different values, 2 with a mismatching type, 1 with the same names and top-level kinds but other element types), each content reused as the same map, *types.Env and *val.Env object across calls, expressions and engines; file descriptor 1 redirected for the duration; " +
+		Rule: "histories of 50-400 operations {Compile, Invoke, package-level Eval / Debug over the reused host maps, late registration of a function and an operator (expressions using them must be refused before and work after), one *types.Env rewritten in place to another signature and compiled against, one host map passed (by pointer and as the map object itself) to the same Callable several times in a row and refilled in between} on two reused engines (vm and closure compiler, harness strict / lazy functions registered) over a pool of 15 expressions (fixed: map rendering, print, lazy host calls, shared sub-values; generated) and 7 environment contents (4 of equal types and different values, 2 with a mismatching type, 1 with the same names and top-level kinds but other element types), each content reused as the same map, *types.Env and *val.Env object across calls, expressions and engines; file descriptor 1 redirected for the duration; " +
 			"monitor: every operation's outcome (value incl. string() and String() renderings, failure class, environment rejection) equals the outcome on a fresh engine with fresh objects (map-valued results are thereby rendered tens of times under different hash seeds / iteration orders); a deep snapshot of every host value and environment before == after; a second stream accounts for standard output exactly: bytes written == the reference evaluator's print log. distinct = distinct expression pool",
 		Assume:    []string{"programs with relative time literals are excluded", "outcome equality ignores error message text (only the class)"},
 		MinEvents: 2000, EventKey: "operations_compared",
